@@ -135,7 +135,7 @@ CHECKS = {
         "parenthesis, loops with those bounds, lazy = fewest, `.` = not newline, class = in / not in); C14_quantifier_means_bounded_repetition - whatever the generator emits for a quantified reference-free tree (m unrolled copies + a loop of 0..n-m) has exactly the outcomes of `between m and n repetitions` of the body's pattern, for bodies that always consume; C14_regex_parser_total; C14_regex_denotes_its_language - for every regular expression proper (no anchors, no back-references, ASCII, non-nullable quantified atoms, m <= n) whatever the generator resolves from its denotation is in the scope of the language theorem and denotes exactly the textbook language of the expression (Spec/RegexLang.v); C14_regex_finds_its_language - written form -> parser -> generator -> specification: outcomes end exactly at the words of the expression; C14_find_all_reports_words - ... -> VM with nothing assumed: on every text `find all` returns consecutively numbered located non-empty matches each of which is a word of the expression; C14_outcomes_in_backtracking_order - the ordered outcomes of the resolved pattern end at the positions, and in the order, in which a conventional backtracking engine finds them (Spec/RegexOrder.v: the order written on the regex syntax alone - concatenation = for every end of the head in order every end of the rest, l|r = all of l before r, greedy = one more iteration before stopping, lazy = stopping before iterating); C14_find_all_is_the_backtracking_scan - written form -> parser -> generator -> VM: `find all` returns exactly the scan of that specification (leftmost start, first end in backtracking order, empty matches skipped, resumed at the end of each match); C14_backtracking_order_is_functional - that specification determines one list per expression, text and position. With C01 (the VM finds what the specification of a pattern tree "
         "defines) the literal finds what its denotation finds. Tie: generated regexes of the subset x short ASCII texts: spans in order and group bindings of `find all @/re/` vs Python's re (a "
         "backtracking engine with back-references) applied position by position; the same programs through the model VM and the extracted specification; the implementation's tree vs the model parser's.",
-   note="Semantic side: WHICH spans can be found is proved against the textbook language for the regular expressions proper; WHICH of them comes first (leftmost alternative, greedy longest, lazy shortest) is proved against a backtracking-order specification written on the regex syntax (bracket classes that list no byte twice; an overlapping class makes the engine's alternatives repeat a position, which does not change what is first) and additionally compared with Python re; anchors and back-references are outside the language and order theorems (round trip + quantifier theorem + differential). "
+   note="Semantic side: WHICH spans can be found is proved against the textbook language for the regular expressions proper; WHICH of them comes first (leftmost alternative, greedy longest, lazy shortest) is proved against a backtracking-order specification written on the regex syntax (the whole subset except back-references, ^ and $ included, the proviso as syntactic non-nullability; non-negated bracket classes that list no byte twice: an overlapping class makes the engine's alternatives repeat a position, which does not change what is first) and additionally compared with Python re; anchors are outside the language theorems, back-references outside both (round trip + quantifier theorem + differential). "
         "vore's `|` binds tighter than concatenation, so alternations are "
         "generated as the whole content of a group or of the regex; repeated bodies cannot match the empty string (as the property says). Repaired: f46c42b (a capturing group under a quantifier "
         "with minimum >= 1 was rejected: name clash); earlier fix commits repaired the regex-body index panics and group numbering by opening parenthesis.",
